@@ -253,6 +253,14 @@ def _parse_tlc(r):
         raise Infra("TLC did not complete:\n" + "\n".join(lines[-40:]))
 
 
+def parallel(fns, nthreads=8):
+    """Run zero-argument callables concurrently; re-raise the first Infra."""
+    from concurrent.futures import ThreadPoolExecutor
+    with ThreadPoolExecutor(max_workers=nthreads) as ex:
+        futs = [ex.submit(f) for f in fns]
+        return [f.result() for f in futs]
+
+
 def sim_stats(r):
     """For -simulate runs: number of states generated is printed differently."""
     m = re.search(r"The number of states generated: (\d+)", r.out)
